@@ -939,10 +939,19 @@ def _hows(h, at):
     return out
 
 
+def _quiet():
+    """armi's section headers are logged at level 100, above what armi_env silences; they would drown the verdict lines"""
+    import logging
+
+    armi_ready()
+    if not os.environ.get("VERIF_ARMI_LOG"):
+        logging.disable(200)
+
+
 def run(rep, tier, seed):
     thorough = tier == "thorough"
     sfx = "_thorough" if thorough else ""
-    armi_ready()
+    _quiet()
     for m in ("Layout_mc", "DbState_mc", "DbState_trace"):
         tlc.sany(m, MODDIR)
     rep.exhaustive = True
@@ -1030,7 +1039,7 @@ def run(rep, tier, seed):
 
 
 def replay(payload):
-    armi_ready()
+    _quiet()
     if payload.get("direction") == "generic":
         d = GenericAdapter().run_case(payload["case"])
         for k, text in d:
@@ -1060,8 +1069,7 @@ def selftest():
     from harness.report import Report
     from harness.selftest import patched, run_mutants
 
-    armi_ready()
-    import contextlib
+    _quiet()
 
     import numpy as np
     from armi.bookkeeping.db import database as D
